@@ -194,6 +194,19 @@ Example C16_F8_generated_unwritten_read :
 Proof. vm_compute. repeat split; reflexivity. Qed.
 Print Assumptions C16_F8_generated_unwritten_read.
 
+(* F8b: DirectTree._build_kth_tree stores `self.tau_matrix[k, k + 1]` as edge.tau (a data-plane statement of the generated gen_direct_kth; the
+   cells are LifecycleTab.direct_reads); CenterTree reads column 0 (center_reads).  On the same witness the direct read is unwritten in the
+   generated matrix; on the 5-variable C-vine every cell CenterTree reads is written *)
+Definition f8_c1 : list edge_data := map (fun e => mk_first e (e_L e, e_R e)) cvine5_t1.
+Example C16_F8b_generated_direct_center :
+  option_map (fun m => map (fun c => omat_get m (fst c) (snd c)) (direct_reads dvine_t2))
+    (gen_get_tau_matrix pair 2 f8_t1 (gen_get_constraints (map ed_edge f8_t2)) f8_t2) = Some [Some None] /\
+  option_map (fun m => map (fun c => omat_get m (fst c) (snd c)) (center_reads cvine5_t1))
+    (gen_get_tau_matrix pair 1 [] (gen_get_constraints (map ed_edge f8_c1)) f8_c1)
+  = Some [Some (Some (CMarg 0, CMarg 2)); Some (Some (CMarg 0, CMarg 3)); Some (Some (CMarg 0, CMarg 4))].
+Proof. vm_compute. split; reflexivity. Qed.
+Print Assumptions C16_F8b_generated_direct_center.
+
 (* the third tree the generated builder returns follows whatever the unwritten cell holds only through edge.tau (one candidate);
    with five variables two unwritten cells are COMPARED: the generated third tree depends on them.  rvine5_t2: second tree
    (0,2|1) (1,3|2) (1,4|2) of a regular vine; the generated matrix of that tree has row 0 entirely unwritten, and two matrices that agree
